@@ -113,6 +113,41 @@ pub fn run(text: &str, cases_path: &str, out: &mut impl Write) {
                 let res = w.step(op).await;
                 writeln!(out, "{id} {n} op={op} res={res}").unwrap();
             }
+            // client side: an attachment (external file blob) on the main account, and a second account without
+            // attachments in the same data directory whose name sorts first
+            let mut attach: Option<(sos_core::VaultId, sos_core::SecretId, sos_core::ExternalFileName, Vec<u8>)> = None;
+            let mut second_id: Option<sos_core::AccountId> = None;
+            if side == "client" {
+                let acct = w.devs[0].bridge.account.clone();
+                let mut a = acct.lock().await;
+                let folder = *w.fslots.get("0").unwrap();
+                let content: Vec<u8> = format!("c19 attachment {}", "q".repeat(777)).into_bytes();
+                let p = w.base.join("attachment-input.bin");
+                std::fs::write(&p, &content).unwrap();
+                if let Ok(secret) = sos_vault::secret::Secret::try_from(p.clone()) {
+                    let meta = sos_vault::secret::SecretMeta::new("Fatt".to_string(), secret.kind());
+                    if let Ok(r) = a.create_secret(meta, secret, sos_client_storage::AccessOptions { folder: Some(folder), ..Default::default() }).await {
+                        if let Ok((row, _)) = a.read_secret(&r.id, Some(&folder)).await {
+                            if let sos_vault::secret::Secret::File { content: sos_vault::secret::FileContent::External { checksum, .. }, .. } = row.secret() {
+                                let name: sos_core::ExternalFileName = (*checksum).into();
+                                let ok = a.download_file(&folder, &r.id, &name).await.map(|b| b == content).unwrap_or(false);
+                                writeln!(out, "{id} !attachment created readable_before={ok}").unwrap();
+                                attach = Some((folder, r.id, name, content));
+                            }
+                        }
+                    }
+                }
+                drop(a);
+                let paths = Paths::new_client(&w.devs[0].dir);
+                let target = sos_backend::BackendTarget::FileSystem(paths);
+                if let Ok(mut other) = sos_account::LocalAccount::new_account("aaa-first".to_string(), crate::sync::password(), target).await {
+                    let key: sos_core::crypto::AccessKey = crate::sync::password().into();
+                    let _ = other.sign_in(&key).await;
+                    second_id = Some(*other.account_id());
+                    let _ = other.sign_out().await;
+                }
+            }
+
             observe_all(&mut w, &id, n, out).await;
 
             let account_id = w.account_id;
@@ -174,6 +209,32 @@ pub fn run(text: &str, cases_path: &str, out: &mut impl Write) {
                     Err(e) => format!("err:{e}"),
                 }
             };
+            // the attachment and the second account after the upgrade
+            let mut attach_after = "n/a".to_string();
+            if let (Some((folder, sid, name, content)), true) = (&attach, reopen == "ok" && side == "client") {
+                let a = w.devs[0].bridge.account.lock().await;
+                attach_after = match a.download_file(folder, sid, name).await {
+                    Ok(b) if &b == content => "ok".to_string(),
+                    Ok(_) => "differs".to_string(),
+                    Err(e) => format!("err:{}", cls(e)),
+                };
+            }
+            let mut second_after = "n/a".to_string();
+            if let (Some(sid2), true) = (second_id, side == "client") {
+                let paths = Paths::new_client(&dir);
+                let target = crate::sync::client_target(&paths, true).await;
+                second_after = match sos_account::LocalAccount::new_unauthenticated(sid2, target).await {
+                    Ok(mut acc) => {
+                        let key: sos_core::crypto::AccessKey = crate::sync::password().into();
+                        match acc.sign_in(&key).await {
+                            Ok(_) => "ok".to_string(),
+                            Err(e) => format!("err:{}", cls(e)),
+                        }
+                    }
+                    Err(e) => format!("err:{}", cls(e)),
+                };
+            }
+            writeln!(out, "{id} extras attachment={attach_after} second_account={second_after}").unwrap();
             writeln!(
                 out,
                 "{id} upgrade side={side} dry_unchanged={} dry={} real={real_s} accounts={naccounts} reopen={reopen}",
@@ -205,6 +266,17 @@ pub fn run(text: &str, cases_path: &str, out: &mut impl Write) {
             for op in hist.iter() {
                 n += 1;
                 let _ = w.step(op).await;
+            }
+            if side == "client" {
+                let acct = w.devs[0].bridge.account.clone();
+                let mut a = acct.lock().await;
+                let folder = *w.fslots.get("0").unwrap();
+                let p = w.base.join("attachment-input.bin");
+                std::fs::write(&p, format!("c19 attachment {}", "q".repeat(777)).into_bytes()).unwrap();
+                if let Ok(secret) = sos_vault::secret::Secret::try_from(p.clone()) {
+                    let meta = sos_vault::secret::SecretMeta::new("Fatt".to_string(), secret.kind());
+                    let _ = a.create_secret(meta, secret, sos_client_storage::AccessOptions { folder: Some(folder), ..Default::default() }).await;
+                }
             }
             n += 1;
             for op in ["s0", "c0:d", "s0", "s1", "s0"] {
